@@ -13,17 +13,18 @@ import traceback
 import kv
 
 ID = 'C09'
-COQ_MODELS = ['MMergeKeep']
-COQ_HEADER = 'From KV Require Import Eqb AL Str.\nFrom KV.Model Require Import MMergeKeep.'
-CASE_TYPE = 'MMergeKeep.case'
-CHECK_FN = 'MMergeKeep.check_case'
+COQ_MODELS = ['MMergeKeep', 'MMergeKeepPts']
+COQ_HEADER = 'From KV Require Import Eqb AL Str.\nFrom KV.Model Require Import MMergeKeep MMergeKeepPts.'
+CASE_TYPE = 'MMergeKeepPts.casex'
+CHECK_FN = 'MMergeKeepPts.check_casex'
 SHARD_SIZE = 12
 CASE_TIMEOUT = 60
 RULE = ('case = 1..4 datasets over a small shared key universe (same key, different value in different inputs), input '
         'folders named so that the listing order is / is not the alphabetical order of their paths, record files stored as '
         'regular files / relative symlinks / absolute symlinks / chains of relative links, nested rigs (members '
         'that are rig ids, depth <= 3, ids mounted directly and through a sub-rig, shuffled insertion order), each of '
-        'the 16 modelled parts missing independently in each input, a skip list, a transfer strategy, tar or folder '
+        'the 18 parts missing independently in each input (3-D points: absent / present but empty with 3 or 6 columns / '
+        'Nx3 / Nx6, observations indexing them), a skip list, a transfer strategy, tar or folder '
         'storage per input/feature kind/type (tar members spelled as kapture writes them or as users pack a folder: '
         './x, folder members, /./, //), library or tool entry point. Enumerated: every singleton skip list on '
         'both entry points, every strategy x 1..3 inputs, every presence pattern of every part over 3 inputs (thorough; '
@@ -33,7 +34,14 @@ RULE = ('case = 1..4 datasets over a small shared key universe (same key, differ
 TRUSTED = ['kapture.io.csv readers/writers (kapture_to_dir, kapture_from_dir, *_from_file) are used to build the '
            'input directories and to read the tool\'s output back; their own correctness is properties C01/C02/C04',
            'host file system and tarfile (member read-back), numpy frombuffer/tofile preserving raw bytes']
-ASSUMPTIONS = ['points3d / observations are left absent in every input (their merge is property C11)',
+ASSUMPTIONS = ['3-D points are a list, not a keyed table: the oracle compares the merged points with the inputs\' points as a '
+               'multiset of (coordinates, observations of that point), i.e. up to a consistent renumbering; the Coq '
+               'correspondence compares the rows in order. Observations of an input without points3d, and observations when '
+               'points3d is in the skip list, designate nothing and are expected to be absent; a ValueError is accepted only '
+               'when two NON-EMPTY inputs disagree on the number of columns (Nx3 with Nx6)',
+               'tool entry point: observations only with keypoints and points3d loaded (kapture_from_dir asserts both), on '
+               '(type, image) pairs of the input\'s keypoints (the loader filters the others); coordinates are dyadic so that '
+               'the %.10f text form is exact',
                'root_link is not a per-file transfer and cannot express a union of several folders: the current code '
                'raises OSError on a fresh output directory; the model predicts that outcome and the oracle does not '
                'judge the output of such a run (inputs must still be unmodified)',
@@ -54,7 +62,9 @@ EXHAUSTIVE = {'quick': False, 'thorough': False}
 PARTS = ['sensors', 'rigs', 'trajectories', 'records_camera', 'records_depth', 'records_lidar', 'records_wifi',
          'records_bluetooth', 'records_gnss', 'records_accelerometer', 'records_gyroscope', 'records_magnetic',
          'keypoints', 'descriptors', 'global_features', 'matches']
-SKIPPABLE = PARTS[2:] + ['points3d', 'observations']
+PO_PARTS = ['points3d', 'observations']
+ALL_PARTS = PARTS + PO_PARTS
+SKIPPABLE = PARTS[2:] + PO_PARTS
 COQ_PART = {'sensors': 'PSensors', 'rigs': 'PRigs', 'trajectories': 'PTraj', 'records_camera': 'PRCam',
             'records_depth': 'PRDepth', 'records_lidar': 'PRLidar', 'records_wifi': 'PWifi', 'records_bluetooth': 'PBt',
             'records_gnss': 'PGnss', 'records_accelerometer': 'PAccel', 'records_gyroscope': 'PGyro',
@@ -81,7 +91,10 @@ QUATS = [[1.0, 0.0, 0.0, 0.0], [0.0, 1.0, 0.0, 0.0], [0.5, 0.5, 0.5, 0.5], [0.5,
 
 
 def _quiet():
+    import warnings
     import kapture.utils.logging
+    warnings.filterwarnings('ignore', message='loadtxt: input contained no data')
+    warnings.filterwarnings('ignore', category=DeprecationWarning)
     kapture.utils.logging.getLogger().setLevel(logging.CRITICAL + 10)
     logging.getLogger('merge').setLevel(logging.CRITICAL + 10)
     logging.getLogger('kapture').setLevel(logging.CRITICAL + 10)
@@ -213,6 +226,49 @@ def _gen_input(rng, i, presence, tool, dens=None, tar_p=0.4):
     return d
 
 
+def _cloud(i, n, w):
+    """n points of input i with w columns; dyadic coordinates (exact in the %.10f text form), colours 0..255"""
+    return {'width': w, 'rows': [[float(i) + 0.5 * j, -1.25 * i, 0.125 * (j + 1)] + ([float(10 * i + j), 128.0, 255.0] if w == 6 else [])
+                                 for j in range(n)]}
+
+
+def _gen_observations(rng, d, npts, tool, dens=0.6):
+    """observations of the points 0..npts-1 of one input: (point, keypoints type, image, keypoint)"""
+    if tool:
+        universe = [(ty, img) for ty, f in sorted((d['keypoints'] or {}).items()) for img in f['images']]
+    else:
+        universe = [(ty, img) for ty in FTYPES['keypoints'] for img in REC_NAMES['records_camera'][:3]]
+    out = []
+    for pt in range(npts):
+        for ty, img in universe:
+            if rng.random() < dens * 0.5:
+                out.append([pt, ty, img, rng.randint(0, 3)])
+    if out and rng.random() < 0.2:
+        out.append(list(rng.choice(out)))           # the same observation recorded twice
+    rng.shuffle(out)
+    return out
+
+
+def _gen_points(rng, ins, presences, tool, w=None, p_empty=0.2, p_conflict=0.04):
+    """points3d / observations of every input of a case: one column count per case (a rare other one = conflict);
+    a present points3d is sometimes EMPTY, with either column count (kapture.Points3d() is 0x6)"""
+    w = w or rng.choice([3, 6])
+    for i, d in enumerate(ins):
+        pres = presences[i] if presences else {}
+        d['points3d'] = d['observations'] = None
+        if pres['points3d'] if 'points3d' in pres else rng.random() < 0.85:
+            if rng.random() < p_empty:
+                d['points3d'] = _cloud(i, 0, rng.choice([3, 6]))
+            else:
+                d['points3d'] = _cloud(i, rng.randint(1, 3), (9 - w) if rng.random() < p_conflict else w)
+        if pres['observations'] if 'observations' in pres else rng.random() < 0.75:
+            if d['points3d'] is not None:
+                d['observations'] = _gen_observations(rng, d, len(d['points3d']['rows']), tool)
+            elif not tool and rng.random() < 0.3:
+                d['observations'] = _gen_observations(rng, d, 2, tool)      # observations of no point at all
+    return ins
+
+
 def _mk(cases, mode, inputs, skip, strategy, has_out=True, origin=None, naming=None):
     c = {'mode': mode, 'inputs': inputs, 'skip': list(skip), 'strategy': strategy, 'has_out': has_out}
     if naming is None:                       # deterministic rotation over the namings, no extra random draw
@@ -235,6 +291,17 @@ def _tool_safe(case):
         if d['records_camera'] is None:
             for k in ('keypoints', 'descriptors', 'global_features', 'matches'):
                 d[k] = None
+    # kapture_from_dir asserts keypoints and points3d are loaded whenever an observations file is loaded, and filters
+    # the observations by the loaded keypoints
+    no_obs = ('keypoints' in case['skip'] or 'points3d' in case['skip']) and 'observations' not in case['skip']
+    for d in case['inputs']:
+        if d.get('observations') is None:
+            continue
+        if no_obs or d.get('points3d') is None or not d['keypoints']:
+            d['observations'] = None
+        else:
+            d['observations'] = [o for o in d['observations']
+                                 if o[1] in d['keypoints'] and o[2] in d['keypoints'][o[1]]['images']]
     return case
 
 
@@ -244,7 +311,8 @@ def gen_cases(rng, tier):
 
     def inputs(n, tool, presences=None, dens=None):
         tar_p = rng.choice([0.0, 0.4, 0.4, 1.0])          # all folders / mixed / all tar archives
-        return [_gen_input(rng, i, (presences[i] if presences else {}), tool, dens, tar_p) for i in range(n)]
+        ins = [_gen_input(rng, i, (presences[i] if presences else {}), tool, dens, tar_p) for i in range(n)]
+        return _gen_points(rng, ins, presences, tool)
 
     # 1. every singleton skip list, both entry points, overlapping inputs
     for s in SKIPPABLE:
@@ -257,8 +325,41 @@ def gen_cases(rng, tier):
                 if mode == 'tool' and n == 3 and not big:
                     continue
                 _mk(cases, mode, inputs(n, mode == 'tool', dens=0.7), [], st, origin='strategy')
+    # 1'. points3d / observations in the skip list, alone and together (either order, with another name), both entry
+    #     points: points3d skipped -> both absent; observations skipped -> the points alone
+    for skip in (['points3d', 'observations'], ['observations', 'points3d'], ['matches', 'points3d', 'observations'],
+                 ['observations'], ['trajectories', 'points3d']):
+        for mode in ('lib', 'tool'):
+            ins = inputs(2, mode == 'tool', dens=0.8)
+            for i, d in enumerate(ins):
+                d['points3d'] = d['points3d'] or _cloud(i, 2, 3)
+            _mk(cases, mode, ins, skip, 'copy', origin='skip-points')
+    # 1''. a points3d part that is present but EMPTY (what the import of an empty reconstruction writes; Points3d() is
+    #      0x6), at every position among inputs with Nx3 / Nx6 points: it contributes nothing and imposes nothing
+    layouts = ['PE', 'EP', 'PEP', 'EeP', 'PPE', 'Ee', 'PNE']
+    for li, layout in enumerate(layouts if big else layouts):
+        for w in (3, 6):
+            for e in (3, 6):
+                if (e == w and layout not in ('PE', 'PEP')) or (not big and e == w):
+                    continue
+                for mode in ('lib', 'tool'):
+                    ins = inputs(len(layout), mode == 'tool', dens=0.5)
+                    for i, (d, ch) in enumerate(zip(ins, layout)):
+                        d['points3d'] = {'P': _cloud(i, 1 + (i + li) % 3, w), 'E': _cloud(i, 0, e),
+                                         'e': _cloud(i, 0, 9 - e), 'N': None}[ch]
+                        d['observations'] = None
+                        if ch == 'P' and rng.random() < 0.8:
+                            d['observations'] = _gen_observations(rng, d, len(d['points3d']['rows']), mode == 'tool')
+                    skip = ['observations'] if (li + w + e + (mode == 'tool')) % 3 == 0 else []
+                    _mk(cases, mode, ins, skip, 'skip', origin='empty-points-' + layout)
+    # 1'''. two non-empty inputs that disagree on the number of columns: not mergeable (ValueError), unless skipped
+    for skip in ([], ['observations'], ['points3d']):
+        ins = inputs(3, False, dens=0.4)
+        for i, d in enumerate(ins):
+            d['points3d'] = _cloud(i, 2, 3 if i != 1 else 6)
+        _mk(cases, 'lib', ins, skip, 'skip', origin='points-column-conflict')
     # 3. presence patterns of each part
-    for part in PARTS:
+    for part in ALL_PARTS:
         pats = ([(a, b, c) for a in (0, 1) for b in (0, 1) for c in (0, 1)] if big
                 else [(0, 0), (0, 1), (1, 0), (0, 1, 1), (0, 0, 1)])
         for pat in pats:
@@ -347,7 +448,7 @@ def gen_cases(rng, tier):
         mode = 'tool' if rng.random() < 0.4 else 'lib'
         n = rng.choice([1, 2, 2, 3, 3, 4])
         p_missing = rng.choice([0.0, 0.2, 0.5])
-        pres = [{p: rng.random() >= p_missing for p in PARTS} for _ in range(n)]
+        pres = [{p: rng.random() >= p_missing for p in ALL_PARTS} for _ in range(n)]
         r = rng.random()
         if r < 0.35:
             skip = []
@@ -434,6 +535,14 @@ def _build_kapture(d):
                              for ty, f in d['global_features'].items()}
     if d['matches'] is not None:
         k.matches = {ty: kapture.Matches([tuple(p) for p in f['pairs']]) for ty, f in d['matches'].items()}
+    if d.get('points3d') is not None:
+        import numpy as np
+        pd = d['points3d']
+        k.points3d = kapture.Points3d(np.array(pd['rows'], dtype=np.float64).reshape((-1, pd['width'])))
+    if d.get('observations') is not None:
+        k.observations = kapture.Observations()
+        for pt, ty, img, kp in d['observations']:
+            k.observations.add(pt, ty, img, kp)
     return k
 
 
@@ -585,6 +694,17 @@ def _canon(k):
             c[ty] = {'meta': json.dumps(meta), 'images': sorted(f)}
         out[part] = c
     out['matches'] = None if k.matches is None else {ty: sorted(list(p) for p in m) for ty, m in k.matches.items()}
+    pts = k.points3d
+    if pts is None:
+        out['points3d'] = None
+    else:
+        import numpy as np
+        arr = np.asarray(pts)
+        out['points3d'] = {'width': int(arr.shape[1]) if arr.ndim == 2 else -1,
+                           'rows': [json.dumps([repr(float(x)) for x in row]) for row in (arr if arr.ndim == 2 else [])]}
+    ob = k.observations
+    out['observations'] = None if ob is None else sorted(
+        [int(pt), ty, img, int(kp)] for pt, sub in ob.items() for ty, lst in sub.items() for img, kp in lst)
     return out
 
 
@@ -645,7 +765,8 @@ def _out_files(out):
                     break
             if done:
                 continue
-            if rel.startswith('sensors/') and rel.endswith('.txt') and rel.count('/') == 1:
+            if (rel.startswith('sensors/') and rel.endswith('.txt') and rel.count('/') == 1) or \
+                    rel in ('reconstruction/points3d.txt', 'reconstruction/observations.txt'):
                 files['csv'].append(rel)
             else:
                 files['extra'].append(rel)
@@ -687,6 +808,15 @@ def _read_out_dir(out):
         tys = [n for n in os.listdir(base) if os.path.isdir(os.path.join(base, n))]
         if tys:
             k.matches = {ty: kcsv.matches_from_dir(ty, out, None, None, None) for ty in tys}
+    p = os.path.join(out, kcsv.CSV_FILENAMES[kapture.Points3d])
+    if os.path.isfile(p):
+        import warnings
+        with warnings.catch_warnings():
+            warnings.simplefilter('ignore')
+            k.points3d = kcsv.points3d_from_file(p)
+    p = os.path.join(out, kcsv.CSV_FILENAMES[kapture.Observations])
+    if os.path.isfile(p):
+        k.observations = kcsv.observations_from_file(p, None)
     return k
 
 
@@ -710,6 +840,9 @@ def _classify_exc(e, strategy):
     fns = [f.name for f in tb]
     if 'import_record_data_from_dir_link_dir' in fns:
         return 'rootlink'
+    if isinstance(e, ValueError) and any(f in fns for f in ('_append_points3d', 'merge_points3d',
+                                                              'merge_points3d_and_observations')):
+        return 'shape'
     if isinstance(e, AssertionError):
         return 'assert'
     if isinstance(e, FileExistsError):
@@ -855,6 +988,58 @@ def _has_missing(case):
     return any(d.get('missing_files') for d in case['inputs'])
 
 
+def _nonempty_widths(ins):
+    return sorted({d['points3d']['width'] for d in ins if d.get('points3d') and d['points3d']['rows']})
+
+
+def _per_point(cloud, observations):
+    """[(coordinates, observations of that point)] of one dataset; None when an observation indexes no point"""
+    rows = cloud['rows'] if cloud else []
+    per = [[] for _ in rows]
+    for pt, ty, img, kp in (observations or []):
+        if not 0 <= pt < len(rows):
+            return None
+        per[pt].append((ty, img, kp))
+    return [(row, tuple(sorted(o))) for row, o in zip(rows, per)]
+
+
+def _oracle_points(case, obs):
+    """points3d / observations: the merged points are the inputs' points (each with its observations, re-indexed
+    consistently), nothing lost, nothing invented; skipped or absent everywhere -> absent"""
+    ins, outd, skip = obs['inputs'], obs['output'], set(case['skip'])
+    got_p, got_o = outd.get('points3d'), outd.get('observations')
+    if 'points3d' in skip:
+        if got_p is not None:
+            return 'points3d: present in the output although skipped'
+        if got_o is not None:
+            return 'observations: present in the output although ' + (
+                'skipped' if 'observations' in skip else 'the 3-D points they index are skipped')
+        return None
+    holders = [d for d in ins if d.get('points3d') is not None]
+    with_obs = 'observations' not in skip
+    if not with_obs and got_o is not None:
+        return 'observations: present in the output although skipped'
+    if not holders and got_p is not None:
+        return 'points3d: present in the output although absent from every input'
+    if with_obs and got_o and not any(d.get('observations') for d in holders):
+        return 'observations: present in the output although no input with 3-D points has any'
+    want = []
+    for d in holders:
+        want += _per_point(d['points3d'], d.get('observations') if with_obs else None) or []
+    got = _per_point(got_p, got_o)
+    if got is None:
+        return 'observations: an observation of the output indexes no merged 3-D point'
+    if sorted(r for r, _ in want) != sorted(r for r, _ in got):
+        lost = len(want) - len(got)
+        return (f'points3d: {len(got)} points in the output, {len(want)} in the inputs' if lost
+                else 'points3d: the merged coordinates are not the coordinates of the inputs')
+    if sorted(want) != sorted(got):
+        return 'observations: the merged points do not carry the observations of the inputs\' points (re-indexed)'
+    if got_p and got_p['rows'] and [got_p['width']] != _nonempty_widths(ins):
+        return 'points3d: number of columns differs from the inputs'
+    return None
+
+
 def oracle(case, obs):
     """C09 stated directly on what the implementation did; independent of the Coq model."""
     ins = obs['inputs']
@@ -871,6 +1056,8 @@ def oracle(case, obs):
             return None          # the inputs disagree on the metadata of a feature type: not mergeable
         if obs['exc_kind'] == 'missing' and _has_missing(case):
             return None          # a listed file is absent from its input directory
+        if obs['exc_kind'] == 'shape' and 'points3d' not in case['skip'] and len(_nonempty_widths(ins)) > 1:
+            return None          # Nx3 points cannot be stacked with Nx6 points
         return f'merge raised {obs["exc"]}'
     if len(ins) == 0:
         return 'merge of no dataset returned'
@@ -918,6 +1105,9 @@ def oracle(case, obs):
                     return f'{kind}/{ty}: metadata is not the one of the earliest input'
             if want != have:
                 return f'{kind}/{ty}: members differ from the union: lost={[x for x in want if x not in have][:3]} extra={[x for x in have if x not in want][:3]}'
+    bad = _oracle_points(case, obs)
+    if bad:
+        return bad
     # files
     files = obs['files']
     if files['extra']:
@@ -1029,7 +1219,20 @@ def _c_ostore(files, T):
     return '{| o_rec := %s; o_feat := %s; o_match := %s |}' % (rec, feat, _c_featfiles(files['matches'], T))
 
 
-_EXC = {'assert': 'EAssert', 'rootlink': 'ERootLink', 'missing': 'EMissing', 'exists': 'EExists'}
+_EXC = {'assert': 'EAssert', 'rootlink': 'ERootLink', 'missing': 'EMissing', 'exists': 'EExists', 'shape': 'EAssert'}
+
+
+def _c_cloud(c, T):
+    if c is None:
+        return 'None'
+    return '(Some (mkCloud %s %s))' % (kv.cz(c['width']), kv.clist(T('row:' + r if isinstance(r, str) else 'row:' + json.dumps(
+        [repr(float(x)) for x in r])) for r in c['rows']))
+
+
+def _c_olist(o):
+    if o is None:
+        return 'None'
+    return '(Some %s)' % kv.clist('(%s, %s, %s, %s)' % (kv.cz(pt), kv.cstr(ty), kv.cstr(img), kv.cz(kp)) for pt, ty, img, kp in o)
 
 
 def encode(case, obs):
@@ -1051,8 +1254,14 @@ def encode(case, obs):
                                   _c_ostore({'rec': {'<unmodelled exception>': 'x'}, 'keypoints': {}, 'descriptors': {},
                                              'global_features': {}, 'matches': {}}, T))
     unchanged = obs['inputs_unchanged'] and obs['dirs_unchanged'] and obs.get('cwd_unchanged', True)
-    return ('{| c_skip := %s; c_strategy := %s; c_has_out := %s; c_inputs := %s; c_obs := %s; c_inputs_unchanged := %s |}'
+    base = ('{| c_skip := %s; c_strategy := %s; c_has_out := %s; c_inputs := %s; c_obs := %s; c_inputs_unchanged := %s |}'
             % (skip, COQ_STRATEGY[case['strategy']], kv.cbool(case['has_out']), ins, o, kv.cbool(unchanged)))
+    pins = kv.clist(kv.cpair(_c_cloud(d.get('points3d'), T), _c_olist(d.get('observations'))) for d in obs['inputs'])
+    if obs['outcome'] == 'ret':
+        pobs = '(PRet %s %s)' % (_c_cloud(obs['output'].get('points3d'), T), _c_olist(obs['output'].get('observations')))
+    else:
+        pobs = 'PRaiseShape' if obs['exc_kind'] == 'shape' else 'PNotReached'
+    return '{| x_base := %s; x_points := %s; x_pobs := %s |}' % (base, pins, pobs)
 
 
 # ---------------------------------------------------------------------------------------------- evidence helpers
@@ -1088,16 +1297,26 @@ def classify(case, obs):
     nest = 'nested-rigs' if any(r[1].startswith('rig') for d in case['inputs'] for r in (d['rigs'] or [])) else 'flat-rigs'
     rs = sorted({(d.get('rec_storage') or 'file') for d in case['inputs']
                  if any(d[p] for p in REC_NAMES)}) or ['norec']
-    return f'{case["mode"]}/n={len(case["inputs"])}/{case["strategy"]}/{sk}/{store}/{order}/{nest}/rec={"+".join(rs)}/{res}'
+    pts = [d.get('points3d') for d in case['inputs']]
+    if not any(p is not None for p in pts):
+        pk = 'nopts'
+    else:
+        ws = {p['width'] for p in pts if p and p['rows']}
+        pk = 'pts' + ('+empty' if any(p is not None and not p['rows'] for p in pts) else '') + \
+             ('(mixed columns)' if len(ws) > 1 else '') + ('+obs' if any(d.get('observations') for d in case['inputs']) else '')
+    return (f'{case["mode"]}/n={len(case["inputs"])}/{case["strategy"]}/{sk}/{store}/{order}/{nest}/rec={"+".join(rs)}/'
+            f'{pk}/{res}')
 
 
 def describe(case, obs):
     d = {'mode': case['mode'], 'n_inputs': len(case['inputs']), 'skip': case['skip'], 'strategy': case['strategy'],
          'has_out': case['has_out'], 'kind': case.get('_kind'),
-         'parts_present': [[p for p in PARTS if d[p] is not None] for d in case['inputs']],
+         'parts_present': [[p for p in ALL_PARTS if d.get(p) is not None] for d in case['inputs']],
+         'points3d': [None if d.get('points3d') is None else '%dx%d' % (len(d['points3d']['rows']), d['points3d']['width'])
+                      for d in case['inputs']],
          'outcome': obs['outcome'], 'exc': obs.get('exc')}
     if obs['outcome'] == 'ret':
-        d['output_parts'] = [p for p in PARTS if obs['output'][p] is not None]
+        d['output_parts'] = [p for p in ALL_PARTS if obs['output'].get(p) is not None]
         d['output_files'] = {k: len(v) for k, v in obs['files'].items()}
     return d
 
@@ -1135,11 +1354,24 @@ def shrink(case):
             c['strategy'] = st
             yield c
     for i, d in enumerate(case['inputs']):
-        for p in PARTS:
-            if d[p] is not None and not (case['mode'] == 'tool' and p in ('sensors', 'records_camera')):
+        for p in PO_PARTS[::-1] + PARTS:
+            if d.get(p) is not None and not (case['mode'] == 'tool' and p in ('sensors', 'records_camera')):
                 c = clone()
                 c['inputs'][i][p] = None
                 yield _tool_safe(c)
+    for i, d in enumerate(case['inputs']):
+        pts = d.get('points3d')
+        if pts and len(pts['rows']) > 1:
+            c = clone()
+            c['inputs'][i]['points3d']['rows'] = pts['rows'][:1]
+            if c['inputs'][i].get('observations'):
+                c['inputs'][i]['observations'] = [o for o in c['inputs'][i]['observations'] if o[0] == 0]
+            yield c
+        if d.get('observations') and len(d['observations']) > 1:
+            for j in range(len(d['observations'])):
+                c = clone()
+                del c['inputs'][i]['observations'][j]
+                yield c
     for i, d in enumerate(case['inputs']):
         for p in PARTS:
             v = d[p]
